@@ -227,3 +227,244 @@ def f_tracelen(repo):
                                 "site": "%s:eval:stack_trace_len-init" % EVAL, "file": LANG + "/" + EVAL, "line": src.t(p).line, "fn": fn, "probe": overflow_probe})
     r["obligations"] += 2
     return r
+
+
+# =====================================================================================
+# F-gctrace (C03): every GcTrace impl of program/data.rs visits each Gc-bearing field /
+# variant payload exactly once, on the single control path of its `trace` function.
+# =====================================================================================
+GCT_PROBE = [
+    {"source": "local o = { a: [1, 2, { b: self }], f(x):: x + 1 }; std.length(std.makeArray(3000, function(i) o { c: i })) + o.f(1)",
+     "oracle": {"oracle": "stdout_equals", "value": "3002\n"}},
+]
+
+
+def _split_top(src, a, b, sep=","):
+    """split significant range [a, b) at top-level separators (brackets and <> nested)"""
+    parts, cur, depth, k = [], [], 0, a
+    while k < b:
+        t = src.t(k)
+        if t.kind == PUNCT and t.text in "([{":
+            c = src.match[k]
+            cur.extend(range(k, c + 1))
+            k = c + 1
+            continue
+        if t.kind == PUNCT and t.text == "<":
+            depth += 1
+        elif t.kind == PUNCT and t.text == ">" and src.t(k - 1).text != "-":
+            depth -= 1
+        if t.kind == PUNCT and t.text == sep and depth == 0:
+            parts.append(cur)
+            cur = []
+        else:
+            cur.append(k)
+        k += 1
+    if cur:
+        parts.append(cur)
+    return parts
+
+
+def _strip_field_prefix(src, ks):
+    """drop attributes and visibility from a field declaration token list"""
+    i = 0
+    while i < len(ks):
+        t = src.t(ks[i])
+        if t.text == "#":
+            c = src.match[ks[i + 1]]
+            while i < len(ks) and ks[i] <= c:
+                i += 1
+            continue
+        if t.text == "pub":
+            i += 1
+            if i < len(ks) and src.t(ks[i]).text == "(":
+                c = src.match[ks[i]]
+                while i < len(ks) and ks[i] <= c:
+                    i += 1
+            continue
+        break
+    return ks[i:]
+
+
+def _bearing(src, type_ks, traceable):
+    """does this type (token positions) hold a Gc handle, directly or through a traceable type?
+    A `&'p T` reference to arena data is not traversed (ir / ast data holds no Gc)."""
+    texts = [src.t(k).text for k in type_ks]
+    if texts and texts[0] == "&":
+        return False
+    for i, tx in enumerate(texts):
+        if tx == "Gc" or tx in traceable:
+            return True
+    return False
+
+
+def f_gctrace_impl(repo):
+    P = "C03"
+    rel = LANG + "/" + DATA
+    src = load(repo, rel)
+    # all `impl GcTrace for T` blocks
+    impls = {}
+    for p in range(src.n()):
+        t = src.t(p)
+        if t.kind == IDENT and t.text == "impl" and src._is_item_position(p):
+            hdr = src.impl_header(p)
+            if hdr and hdr[0] == "GcTrace":
+                impls[hdr[1]] = (p, hdr[2])
+    if len(impls) < 5:
+        raise LostAnchor("F-gctrace: fewer than 5 `impl GcTrace for` blocks found in data.rs (anchor lost)")
+    traceable = set(impls)
+    # type aliases whose target is Gc-bearing (ArrayData = Box<[Gc<ThunkData>]>)
+    for p in range(src.n() - 1):
+        if src.t(p).kind == IDENT and src.t(p).text == "type" and src._is_item_position(p):
+            _, _, pe = src.item_end(p)
+            ks = list(range(p + 2, pe))
+            if any(src.t(k).text == "Gc" for k in ks):
+                traceable.add(src.t(p + 1).text)
+    n_ob, failed, samples = 0, [], []
+
+    def fail(tname, msg, line):
+        failed.append({"obligation": "C03:F-gctrace:%s: %s" % (tname, msg), "site": "%s:%s" % (DATA, tname),
+                       "file": rel, "line": line, "fn": "trace", "probe": GCT_PROBE})
+
+    for tname, (p_impl, p_open) in sorted(impls.items()):
+        p_close = src.match[p_open]
+        # the trace fn body
+        fpos = [q for q in range(p_open, p_close) if src.t(q).text == "fn" and src.t(q + 1).text == "trace"]
+        if len(fpos) != 1:
+            raise LostAnchor("F-gctrace: impl GcTrace for %s has no single fn trace" % tname)
+        b_open, b_close, _ = src.item_end(fpos[0])
+        body = list(range(b_open + 1, b_close))
+        btx = [src.t(k).text for k in body]
+        line0 = src.t(fpos[0]).line
+        # single control path: no early exit, no conditional other than `if let Self::` / `match self`
+        n_ob += 1
+        bad = [x for x in btx if x in ("return", "break", "continue", "?", "while", "loop")]
+        ifs = [i for i, x in enumerate(btx) if x == "if"]
+        bad_if = [i for i in ifs if not (btx[i + 1] == "let" and btx[i + 2] == "Self")]
+        if bad or bad_if:
+            fail(tname, "trace() has one unconditional control path (found %s)" % (bad or "a plain `if`"), line0)
+        # the type definition
+        kind = None
+        for kw in ("struct", "enum"):
+            c = src.find_items(kw, tname)
+            if c:
+                kind, p_def = kw, c[0]
+        if kind is None:
+            raise LostAnchor("F-gctrace: definition of %s not found" % tname)
+        d_open, d_close, _ = src.item_end(p_def)
+        if kind == "struct":
+            for ks in _split_top(src, d_open + 1, d_close):
+                ks = _strip_field_prefix(src, ks)
+                if len(ks) < 3 or src.t(ks[1]).text != ":":
+                    continue
+                fname = src.t(ks[0]).text
+                if not _bearing(src, ks[2:], traceable):
+                    continue
+                n_ob += 1
+                occ = [i for i in range(len(btx) - 2) if btx[i] == "self" and btx[i + 1] == "." and btx[i + 2] == fname
+                       and (i + 3 >= len(btx) or btx[i + 3] != "(")]
+                if len(occ) != 1:
+                    fail(tname, "field `%s` (holds Gc handles) is visited exactly once by trace() - found %d uses of self.%s" % (fname, len(occ), fname), line0)
+                    continue
+                i = occ[0] + 3
+                rest = btx[i:]
+                ok = False
+                if rest[:6] == [".", "trace", "(", "ctx", ")", ";"]:
+                    ok = True
+                elif rest[:10] == [".", "borrow", "(", ")", ".", "trace", "(", "ctx", ")", ";"]:
+                    ok = True
+                elif rest[:4] in ([".", "values", "(", ")"], [".", "iter", "(", ")"]) and rest[4] == "{":
+                    # for <v> in self.f.values() { <v>.trace(ctx); }
+                    j = occ[0]
+                    if j >= 3 and btx[j - 1] == "in" and btx[j - 3] == "for":
+                        v = btx[j - 2]
+                        blk_open = body[i + 4]
+                        blk = [src.t(k).text for k in range(blk_open + 1, src.match[blk_open])]
+                        ok = blk == [v, ".", "trace", "(", "ctx", ")", ";"]
+                if not ok:
+                    fail(tname, "field `%s` is traced unconditionally (self.%s.trace(ctx), .borrow().trace(ctx) or a for-loop over its values) - found `self.%s %s`"
+                         % (fname, fname, fname, " ".join(rest[:8])), line0)
+                elif len(samples) < 6:
+                    samples.append("C03:F-gctrace:%s.%s visited exactly once" % (tname, fname))
+        else:
+            for ks in _split_top(src, d_open + 1, d_close):
+                ks = _strip_field_prefix(src, ks)
+                if not ks:
+                    continue
+                vname = src.t(ks[0]).text
+                binds = []      # (binding description, kind 'pos'|'named', key)
+                if len(ks) > 1 and src.t(ks[1]).text == "(":
+                    c = src.match[ks[1]]
+                    for i, sub in enumerate(_split_top(src, ks[1] + 1, c)):
+                        if _bearing(src, sub, traceable):
+                            binds.append(("pos", i))
+                elif len(ks) > 1 and src.t(ks[1]).text == "{":
+                    c = src.match[ks[1]]
+                    for sub in _split_top(src, ks[1] + 1, c):
+                        sub = _strip_field_prefix(src, sub)
+                        if len(sub) >= 3 and src.t(sub[1]).text == ":" and _bearing(src, sub[2:], traceable):
+                            binds.append(("named", src.t(sub[0]).text))
+                if not binds:
+                    continue
+                # the pattern `Self::V` in the body
+                pats = [i for i in range(len(btx) - 3) if btx[i] == "Self" and btx[i + 1] == ":" and btx[i + 2] == ":" and btx[i + 3] == vname]
+                for b in binds:
+                    n_ob += 1
+                    what = "payload %s of variant %s" % (b[1], vname)
+                    if len(pats) != 1:
+                        fail(tname, "%s (holds Gc handles) is visited exactly once - variant matched %d times in trace()" % (what, len(pats)), line0)
+                        continue
+                    i = pats[0] + 4
+                    grp_open = body[i]
+                    if src.t(grp_open).text not in "({":
+                        fail(tname, "%s is bound by the pattern" % what, line0)
+                        continue
+                    grp_close = src.match[grp_open]
+                    subs = _split_top(src, grp_open + 1, grp_close)
+                    var = None
+                    if b[0] == "pos":
+                        if b[1] < len(subs) and len(subs[b[1]]) == 1 and src.t(subs[b[1]][0]).kind == IDENT:
+                            var = src.t(subs[b[1]][0]).text
+                    else:
+                        for sub in subs:
+                            tx = [src.t(k).text for k in sub]
+                            if tx == [b[1]]:
+                                var = b[1]
+                            elif len(tx) == 3 and tx[0] == b[1] and tx[1] == ":":
+                                var = tx[2]
+                    if var is None or var == "_":
+                        fail(tname, "%s is bound by the pattern (not ignored by `_` / `..`)" % what, line0)
+                        continue
+                    # arm body: `=> expr ,` | `=> { .. }` | `= self { .. }` (if let)
+                    k = grp_close + 1
+                    if src.t(k).text == "=" and src.t(k + 1).text == ">":
+                        k += 2
+                        if src.t(k).text == "{":
+                            arm = list(range(k + 1, src.match[k]))
+                        else:
+                            e = k
+                            while e < b_close and not (src.t(e).text == "," ):
+                                if src.t(e).text in "([{":
+                                    e = src.match[e]
+                                e += 1
+                            arm = list(range(k, e))
+                    elif src.t(k).text == "=" and src.t(k + 1).text == "self" and src.t(k + 2).text == "{":
+                        arm = list(range(k + 3, src.match[k + 2]))
+                    else:
+                        fail(tname, "%s: unrecognised arm shape" % what, line0)
+                        continue
+                    atx = [src.t(q).text for q in arm]
+                    uses = [j for j in range(len(atx)) if atx[j] == var and (j == 0 or atx[j - 1] != ".")]
+                    good = [j for j in uses if atx[j + 1:j + 6] == [".", "trace", "(", "ctx", ")"]]
+                    if len(uses) != 1 or len(good) != 1:
+                        fail(tname, "%s is traced exactly once in its arm (`%s.trace(ctx)`) - found %d uses, %d trace calls" % (what, var, len(uses), len(good)), line0)
+                    elif len(samples) < 6:
+                        samples.append("C03:F-gctrace:%s::%s %s visited exactly once" % (tname, vname, b[1]))
+    # every Gc<X> stored in data.rs names a type with a GcTrace impl: enforced by rustc (`Gc<T: GcTrace>`)
+    return {"name": "F-gctrace", "obligations": n_ob, "failed": failed, "samples": samples}
+
+
+@frame.frame("C03")
+def f_gctrace(repo):
+    """C03: each `impl GcTrace for T` in program/data.rs visits every field / variant payload of T
+    that can hold a Gc handle exactly once, unconditionally."""
+    return f_gctrace_impl(repo)
